@@ -312,7 +312,7 @@ func C04Plan() *vlib.Plan {
 						who += " and client accepted the server's reply"
 					}
 					res.Violate(fmt.Sprintf("C04/tampered-negotiation-accepted/%s/%s/%s", sh.name, flt.dir, flt.kind), "shape %s fault %v: the cleartext handshake was altered in transit, both handshakes returned %v/%v and application data was still accepted (%s)", sh.name, flt, errStr(r.C.Err), errStr(r.S.Err), who)
-					res.Outcome("VIOLATION-accepted")
+					res.Outcome("finding-accepted")
 					return res
 				}
 				switch {
